@@ -269,6 +269,52 @@ EffectWhy(e, strict) ==
     [] o.op = "cursor" -> CursorWhy(e, strict)
     [] OTHER -> ""
 
+----------------------------------------------------------------------------
+(* C11: a walk over one section that deletes the records whose identity is in e.del.  Records *)
+(* are identified by their TTL bytes (the scenario gives every record of the section its own), *)
+(* the question by its position.                                                               *)
+
+IdxOfTtl(orig, ttl) == IF \E i \in 1..Len(orig) : orig[i].ttl = ttl THEN CHOOSE i \in 1..Len(orig) : orig[i].ttl = ttl ELSE 0
+\* position, in the current section, of original record i given the set of records still alive
+PosOf(alive, i) == Cardinality({j \in alive : j <= i})
+Survivors(orig, alive) == SelectSeq([i \in 1..Len(orig) |-> i], LAMBDA i : i \in alive)
+
+RECURSIVE YieldsWhy(_, _, _, _, _, _, _)
+YieldsWhy(e, k, p, alive, seen, a0, orig) ==
+  LET s == e.sec IN
+  IF k > Len(e.ys) THEN
+       \* end of the walk
+       LET walk == IF s = "AR" /\ ~e.incl THEN {i \in alive : orig[i].t # TOPT} ELSE alive IN
+       IF ~(walk \subseteq seen) THEN "a surviving record was never yielded"
+       ELSE IF e.post # p THEN "the packet changed after the last yield"
+       ELSE StateWhy(e.view, e.post, e.reparse)
+  ELSE LET y == e.ys[k]
+           i == IF s = "Q" THEN (IF Len(orig) = 1 THEN 1 ELSE 0) ELSE IF y.obs.tomb THEN 0 ELSE IdxOfTtl(orig, y.obs.ttl)
+           inD == IF s = "Q" THEN e.del_q ELSE \E j \in 1..Len(e.del) : i # 0 /\ e.del[j] = orig[i].ttl
+           alive2 == IF inD THEN alive \ {i} ELSE alive
+           want == WithSec(a0, s, [j \in 1..Cardinality(alive2) |-> orig[Survivors(orig, alive2)[j]]])
+       IN
+       IF i = 0 THEN "the walk yields something that is not a record of the section"
+       ELSE IF i \notin alive THEN "a deleted record is yielded again"
+       ELSE IF s = "AR" /\ ~e.incl /\ orig[i].t = TOPT THEN "the OPT-skipping reader yields the OPT record"
+       ELSE IF ~Designates(y.obs, p, s, PosOf(alive, i)) THEN "a yielded cursor does not designate a record of the current bytes"
+       ELSE IF y.hit # inD THEN "driver and specification disagree on the identity of the yielded record"
+       ELSE IF Len(y.bytes) < 12 THEN "the object lost its packet"
+       ELSE IF ~Structural(y.bytes) THEN "after a deletion the bytes are no longer acceptable: " \o WhyNot(WithQ(WithQR(y.bytes)))
+       ELSE IF ViewWhy(y.view, y.bytes) # "" THEN "during the walk: " \o ViewWhy(y.view, y.bytes)
+       ELSE IF CMsgX(y.bytes) # want THEN (IF inD THEN "the deletion did not remove exactly the record under the cursor" ELSE "the message changed although nothing was deleted")
+       ELSE IF inD /\ (y.d1 # "ok" \/ ~y.tomb) THEN "delete failed or left a live cursor: " \o y.d1e
+       ELSE IF inD /\ e.twice /\ ~(y.d2 = "err" /\ y.d2e = "Void record") THEN "a second delete through the same cursor did not report a void record"
+       ELSE YieldsWhy(e, k + 1, y.bytes, alive2, seen \cup {i}, a0, orig)
+
+WalkWhy(e) ==
+  IF e.res = "panic" THEN "panic during the walk"
+  ELSE IF e.res = "too-many-yields" THEN "the walk does not terminate within the bound on yields"
+  ELSE IF ~WellFormed(e.pre) THEN "-"
+  ELSE LET a0 == CMsgX(e.pre)  orig == SecOf(a0, e.sec) IN
+       IF e.sec # "Q" /\ \E i, j \in 1..Len(orig) : i # j /\ orig[i].ttl = orig[j].ttl THEN "-"     \* identities not unique: not a C11 scenario
+       ELSE YieldsWhy(e, 1, e.pre, 1..Len(orig), {}, a0, orig)
+
 \* C08 + C09 + C10 for one recorded step; "-" when the step starts from bytes that already are unacceptable
 StepWhy(e, strict) ==
   IF e.res = "panic" THEN "panic in " \o e.o.op
